@@ -964,6 +964,71 @@ def unroll_literal_for_loops(fn_node) -> int:
     return count
 
 
+def beta_reduce_local_lambdas(fn_node) -> int:
+    """``ok = lambda a, b: <expr>`` bound once in the function and only ever *called* there (never passed on, returned or
+    stored): each call ``ok(x, y)`` is replaced by the expression with the arguments in place.  The free variables of a
+    lambda are read when it is called, exactly as the substituted expression reads them; arguments must be read-only
+    expressions because they may be evaluated at a different position or more than once."""
+    from .aggregates import _read_only
+
+    count = 0
+    defs: Dict[str, List[ast.Assign]] = {}
+    stores: Dict[str, int] = {}
+    for n in ast.walk(fn_node):
+        if isinstance(n, ast.Name) and not isinstance(n.ctx, ast.Load):
+            stores[n.id] = stores.get(n.id, 0) + 1
+        if isinstance(n, ast.Assign) and len(n.targets) == 1 and isinstance(n.targets[0], ast.Name) and isinstance(n.value, ast.Lambda):
+            defs.setdefault(n.targets[0].id, []).append(n)
+    for name, ds in defs.items():
+        if len(ds) != 1 or stores.get(name) != 1:
+            continue
+        lam = ds[0].value
+        a = lam.args
+        if a.vararg or a.kwarg or a.kwonlyargs or a.posonlyargs or a.defaults:
+            continue
+        params = [x.arg for x in a.args]
+        if any(isinstance(n, (ast.Lambda, ast.ListComp, ast.GeneratorExp, ast.SetComp, ast.DictComp, ast.NamedExpr)) for n in ast.walk(lam.body)):
+            continue
+        loads = [n for n in ast.walk(fn_node) if isinstance(n, ast.Name) and n.id == name and isinstance(n.ctx, ast.Load)]
+        calls = [n for n in ast.walk(fn_node) if isinstance(n, ast.Call) and isinstance(n.func, ast.Name) and n.func.id == name]
+        if not calls or len(calls) != len(loads):
+            continue
+        if any(c.keywords or len(c.args) != len(params) or any(isinstance(x, ast.Starred) for x in c.args) or not all(_read_only(x) for x in c.args) for c in calls):
+            continue
+        # calls inside other nested scopes would read the name late; keep those
+        nested_nodes = {id(x) for n in ast.walk(fn_node) if isinstance(n, (ast.Lambda, ast.FunctionDef)) and n is not fn_node for x in ast.walk(n)}
+        if any(id(c) in nested_nodes for c in calls):
+            continue
+        call_ids = {id(c) for c in calls}
+
+        class R(ast.NodeTransformer):
+            def visit_Call(self, node):
+                self.generic_visit(node)
+                if id(node) in call_ids:
+                    m = dict(zip(params, node.args))
+
+                    class S(ast.NodeTransformer):
+                        def visit_Name(self, n2):
+                            if n2.id in m and isinstance(n2.ctx, ast.Load):
+                                return ast.copy_location(copy.deepcopy(m[n2.id]), n2)
+                            return n2
+
+                    return ast.copy_location(S().visit(copy.deepcopy(lam.body)), node)
+                return node
+
+        R().visit(fn_node)
+        # the definition is dead now
+        for n in ast.walk(fn_node):
+            for fld in ("body", "orelse", "finalbody"):
+                blk = getattr(n, fld, None)
+                if isinstance(blk, list) and any(x is ds[0] for x in blk):
+                    blk[:] = [x for x in blk if x is not ds[0]] or [ast.copy_location(ast.Pass(), ds[0])]
+        count += 1
+    if count:
+        ast.fix_missing_locations(fn_node)
+    return count
+
+
 def counted_loops_to_while(fn_node) -> int:
     """``for k in range(N): if c: break; ...`` (a counted loop that opens with guard clauses - what a ``while a and b and
     k < N`` loop looks like after a for-conversion) -> ``k = 0; while k < N and not c: ...; k += 1``.
@@ -1331,6 +1396,10 @@ def normalise(prog: Program) -> Tuple[Program, List[str]]:
             if nd:
                 changed_alias = True
                 log.append(f"{fn.qualname} ({nd} nested one-line def(s) rewritten as lambdas)")
+            nb = beta_reduce_local_lambdas(fn.node)
+            if nb:
+                changed_alias = True
+                log.append(f"{fn.qualname} ({nb} local lambda(s) that are only called replaced by their bodies)")
         ng = unroll_literal_generators(fn.node)
         if ng:
             changed_alias = True
